@@ -127,6 +127,12 @@ def to_argv (spec, with_sources = True):
     return a
 # end def to_argv
 
+class Locate_Error (Exception):
+    """ no (or no unique) pulse at the location where the documented
+        geometry puts one
+    """
+    pass
+
 def locate (m, at, direction = None):
     """ pulse index at a location and the sign of its reference direction
         relative to `direction`. Only unambiguous locations are accepted.
@@ -135,7 +141,7 @@ def locate (m, at, direction = None):
     L    = min (s.seg_len for g in m.geo for s in g.segments)
     hits = [p for p in m.pulses if np.linalg.norm (np.asarray (p.point, float) - at) < 1e-6 * L]
     if len (hits) != 1:
-        raise LookupError ('%d pulses at %s' % (len (hits), at))
+        raise Locate_Error ('%d pulses at %s' % (len (hits), at))
     p = hits [0]
     sgn = 1
     if direction is not None:
@@ -367,13 +373,11 @@ def validity (m, seg_max = 1 / 20., seg_min = 1 / 200., check_junction_ratio = 1
                     el = np.degrees (np.arcsin (np.clip (d [2] / np.linalg.norm (d), -1, 1)))
                     if el < 20 - 1e-6:
                         why.append ('grounded wire rises < 20 deg')
-            for s in ss:
-                for p, other in ((s ['p1'], s ['p2']), (s ['p2'], s ['p1'])):
-                    if 1e-9 * s ['l'] < p [2] < s ['l'] * (1 - 1e-9):
-                        # a point above ground but lower than one segment: allowed only on the
-                        # segment that touches the ground
-                        if min (s ['p1'][2], s ['p2'][2]) > 1e-9 * s ['l']:
-                            why.append ('wire closer than one segment to ground')
+            if not (g.is_ground [0] or g.is_ground [1]):
+                # a wire that does not stand on the ground stays at least one segment length above it
+                zmin = min (min (x ['p1'][2], x ['p2'][2]) for x in ss)
+                if zmin < max (x ['l'] for x in ss) * (1 - 1e-9):
+                    why.append ('wire closer than one segment to ground')
         gp = [tuple (np.round (np.asarray ((g.p1, g.p2) [e], float) [:2] / ls.min (), 3))
               for g in m.geo for e in (0, 1) if g.is_ground [e]]
         if len (gp) != len (set (gp)):
